@@ -193,21 +193,24 @@ class SedRead(Contract):
     requested order holds."""
     name = SED + '.read'
     properties = ('C12', 'C15')
-    variants = ('mJy->erg_cm2_s/nu', 'mJy->erg_cm2_s/wav', 'erg_cm2_s->mJy/wav', 'mJy->mJy/nu')
+    # (stored unit[+ unit of the error column if it differs] -> requested unit / requested order)
+    variants = ('mJy->erg_cm2_s/nu', 'mJy->erg_cm2_s/wav', 'erg_cm2_s->mJy/wav', 'mJy->mJy/nu', 'mJy+Jy->mJy/nu')
 
     def setup(self, c, variant):
         from sedvc.interp import ClassVal
         units_, order = variant.split('/')
-        ua, ub = [FLUX_UNITS[x] for x in units_.split('->')]
+        stored, ub = units_.split('->')
+        ua, ue = [FLUX_UNITS[x] for x in (stored.split('+') * 2)[:2]]       # every column carries its own unit
+        ub = FLUX_UNITS[ub]
         A, W = c.int('n_ap'), c.int('n_wav')
         c.assume([A >= 1, W >= 2])
         self.file = dict(wav=c.array('file_wav', (W,)), nu=c.array('file_nu', (W,)), ap=c.array('file_ap', (A,)),
-                         flux=c.array('file_flux', (A, W)), err=c.array('file_err', (A, W)), ua=ua, dist=c.real('file_dist_cm'))
+                         flux=c.array('file_flux', (A, W)), err=c.array('file_err', (A, W)), ua=ua, ue=ue, dist=c.real('file_dist_cm'))
         f = self.file
         hl = hdulist(c, [hdu(c, header={'MODEL': Opaque('str', 'name'), 'DISTANCE': f['dist']}),
                          hdu(c, fields={'WAVELENGTH': f['wav'], 'FREQUENCY': f['nu']}, units=[U['micron'], U['Hz']]),
                          hdu(c, fields={'APERTURE': f['ap']}, units=[U['au']]),
-                         hdu(c, fields={'TOTAL_FLUX': f['flux'], 'TOTAL_FLUX_ERR': f['err']}, units=[ua, ua])])
+                         hdu(c, fields={'TOTAL_FLUX': f['flux'], 'TOTAL_FLUX_ERR': f['err']}, units=[ua, ue])])
         c.set('__hdulist__', hl)
         c.interp.ext['astropy.io.fits.open'] = lambda interp, st, fr, args, kw: hl
         c.interp.ext['os.path.exists'] = lambda interp, st, fr, args, kw: True
@@ -288,9 +291,10 @@ class SedRead(Contract):
         for nm, T in (('_flux', F), ('_error', E)):
             q = c.attr(result, nm)
             G = c.A(q)
+            stored_unit = f['ua'] if nm == '_flux' else f.get('ue', f['ua'])
             out['cells(%s)' % nm] = [compare('==', G.shape[0], T.shape[0]), compare('==', G.shape[1], n),
-                                     c.forall([T.shape[0], n], (lambda G, T, q: lambda i, k: G[i, k] * q.unit.scale / a.unit_flux.scale ==
-                                                                from_ref(to_ref(T[i, src(k)], f['ua'], nu[src(k)], d_m), a.unit_flux, nu[src(k)], d_m))(G, T, q), 'cells')]
+                                     c.forall([T.shape[0], n], (lambda G, T, q, stored_unit: lambda i, k: G[i, k] * q.unit.scale / a.unit_flux.scale ==
+                                                                from_ref(to_ref(T[i, src(k)], stored_unit, nu[src(k)], d_m), a.unit_flux, nu[src(k)], d_m))(G, T, q, stored_unit), 'cells')]
         return out
 
 
